@@ -43,7 +43,9 @@ def _size_for(mode, cols, rows):
 
 
 def check_render(w, size, focus, mode_name, wmode, what=""):
-    """the C01 oracle for one (widget, size, focus)"""
+    """the C01 oracle for one (widget, size, focus): a cold render (empty canvas cache) and then, with that
+    canvas still referenced (as a Screen would hold it), a second render of the root alone over its
+    children's cached canvases - composing a parent must not have altered what the children hand out."""
     urwid.CanvasCache.clear()
     if mode_name == "fixed":
         # a fixed widget with nothing to show packs to a zero-area size; Canvas does not support
@@ -52,19 +54,33 @@ def check_render(w, size, focus, mode_name, wmode, what=""):
             return None
         urwid.CanvasCache.clear()
     canv = w.render(size, focus)
+    _validate(w, canv, size, focus, mode_name, wmode, what, cold=True)
+    urwid.CanvasCache.invalidate(w)
+    canv2 = w.render(size, focus)
+    _validate(w, canv2, size, focus, mode_name, wmode, what + "[root re-rendered over cached children] ", cold=False)
+    return canv
+
+
+def _validate(w, canv, size, focus, mode_name, wmode, what, cold):
     cols, rows = canv.cols(), canv.rows()
     if mode_name == "box":
         if (cols, rows) != tuple(size):
             raise Violation("box-size", f"{what}render({size}, {focus}) gave a {cols}x{rows} canvas")
     elif mode_name == "flow":
-        urwid.CanvasCache.clear()
+        if cold:
+            urwid.CanvasCache.clear()
+        else:
+            urwid.CanvasCache.invalidate(w)
         exp_rows = w.rows(size, focus)
         if cols != size[0]:
             raise Violation("flow-cols", f"{what}render({size}, {focus}) gave {cols} columns")
         if rows != exp_rows:
             raise Violation("flow-rows", f"{what}render({size}, {focus}) gave {rows} rows, rows() says {exp_rows}")
     else:
-        urwid.CanvasCache.clear()
+        if cold:
+            urwid.CanvasCache.clear()
+        else:
+            urwid.CanvasCache.invalidate(w)
         exp = tuple(w.pack((), focus))
         if (cols, rows) != exp:
             raise Violation("fixed-size", f"{what}render((), {focus}) gave {cols}x{rows}, pack() says {exp}")
